@@ -16,13 +16,20 @@ QUERIES = ['compute_totals', 'compute_totals_single', 'jacvec', 'jacvec', 'check
 
 
 def _digest(model):
-    h = hashlib.sha1()
-    parts = {}
-    for kind, vec in (('inputs', model._inputs), ('outputs', model._outputs),
-                      ('residuals', model._residuals)):
-        b = np.ascontiguousarray(vec.asarray()).tobytes()
-        parts[kind] = hashlib.sha1(b).hexdigest()
-    return parts
+    """Copies of the three nonlinear vectors (scaled form, as stored)."""
+    return {kind: np.array(vec.asarray(), dtype=float, copy=True)
+            for kind, vec in (('inputs', model._inputs), ('outputs', model._outputs),
+                              ('residuals', model._residuals))}
+
+
+def _same_state(a, b):
+    """A query may leave a vector different by rounding only: matrix-free components are called in
+    an unscaled context, and `(a0 + a1*x - a0)/a1` is not always bit-identical to `x` in doubles
+    (seen: 1 ulp on an output with ref/ref0).  Anything beyond a few ulps is a change."""
+    if a.shape != b.shape:
+        return False
+    scale = max(1.0, float(np.max(np.abs(b))) if b.size else 1.0)
+    return bool(np.all(np.abs(a - b) <= 1e-13 * scale + 1e-12 * np.abs(b)))
 
 
 class C31(Property):
@@ -39,7 +46,10 @@ class C31(Property):
             "run_model after the first must reproduce the outputs bit for bit. Non-trivial: at least "
             "one query that perturbs the model internally (approximation, check, coloring) is in the "
             "sequence; distinct by (seed, sequence).")
-    assumptions = ["bitwise comparison of the vectors' bytes (no tolerance)",
+    assumptions = ["repeated run_model compared bit for bit; the state before/after a query compared to a "
+                   "few ulps (1e-13 x max|v| + 1e-12 x |v|): the unscale/scale round trip around a "
+                   "matrix-free component is exact in the field model (C08_scale_bijection), not in "
+                   "doubles",
                    "iterative nonlinear solvers restart from their converged state: outputs compared "
                    "at 1e-9 instead of bitwise for models with a cycle"]
     trusted_extra = []
@@ -160,7 +170,7 @@ class C31(Property):
                         st['msg'] = str(e)[:200]
                     if before is not None:
                         after = _digest(model)
-                        st['changed'] = [k for k in before if before[k] != after[k]]
+                        st['changed'] = [k for k in before if not _same_state(after[k], before[k])]
                     res['steps'].append(st)
         except Exception as e:
             res['error'] = type(e).__name__
